@@ -14,7 +14,14 @@ stderr) is compared with
   * the direct oracle below, which only looks at the disk: every listed path is a regular file
     holding the bytes it held when create last ran.
 Default locations: where the torrent appears and where verify looks, against Model/Paths.v, the
-string-level rule of Model/Verify.v, and os.path."""
+string-level rule of Model/Verify.v, and os.path.
+End to end (Model/EndToEnd.v, command c02e2e): per create step the extracted composition
+create -> Metainfo.build -> encode -> load (real SHA-1/MD5, a seed-drawn set of metainfo options)
+is evaluated on the mirror of the tree and must give the creation result back (the theorem
+c02_created_bytes_load_back, executed); the loader model on the bytes the binary wrote must give
+that same torrent (name, piece length, piece list, files); the model's info dictionary must be
+byte-identical to the binary's when the drawn options leave info alone; and the direct oracle
+(lib.bdecode_strict + hashlib over the files on disk) states what the written file must contain."""
 import copy, hashlib, json, os, re, shutil, stat, tempfile
 import lib
 from props import vfy
@@ -25,15 +32,18 @@ MANIFEST = dict(
          "verdict is success exactly when every listed path is a regular file with its creation-time bytes (SHA-1 collision-freeness "
          "of the compared blocks is the only hypothesis, used in one direction); unlisted files are irrelevant, undoing edits restores "
          "success, every missing/resized/MD5-failing file is named, and create's default output and verify's default content root are "
-         "inverse for every working directory and input path. Tied to the code by running histories of create/edit/verify/re-create "
+         "inverse for every working directory and input path. End to end: the bytes create writes (C05's assembled value, C04's "
+         "encoding) load back through C03's loader as the very torrent the composed model verifies, for every tree, selection, piece "
+         "length, --md5, read schedule and metainfo option set, so create-then-verify and verdict-tracks-content hold of the written "
+         "file. Tied to the code by running histories of create/edit/verify/re-create "
          "on the real binary against the extracted models and an independent disk-reading oracle. Right level: the claim quantifies "
          "over all trees x all edit histories, which the repository's single-tree, single-edit tests cannot reach.",
     ref="DESIGN.md section 5, C02",
     technique="Coq proof over a Gallina model + model/implementation correspondence run on the real binary + independent oracle",
     note="Assumed: SHA-1/MD5 are functions (Section variables) and no two different compared blocks collide under SHA-1 (explicit "
          "hypothesis of the only-if direction). The walker's selection and order are taken from the torrent as written (C06 owns "
-         "them); the bencode serialisation between create and verify is covered by running the verifier model on the real torrent "
-         "bytes (C03's loader), not by a theorem here. Not modelled: symlinks, permissions, FIFOs, concurrent modification. "
+         "them). End-to-end hypotheses: digest lengths 20/16, UTF-8 names and components, i64 lengths (each shown necessary by an "
+         "example). Not modelled: symlinks, permissions, FIFOs, concurrent modification. "
          "Trusted: Coq kernel, extraction, OCaml drivers, Python oracle.")
 
 SMALL_P = [1, 2, 3, 4, 5, 7, 8, 16, 31, 32, 64]
@@ -254,16 +264,51 @@ class History:
         self.created = {"listed": listed, "tree0": copy.deepcopy(self.world), "torrent": tb, "multi": not t["single"],
                         "md5": any(m is not None for _, _, m in t["files"]), "name": t["name"], "p": t["p"]}
         rec["listed"] = [b"/".join(c) for c, _ in listed]
+        rec["torrent_bytes"] = tb
         if t["name"] != self.tname:
             self.fail.append("the torrent's name is %r, expected %r" % (t["name"], self.tname))
         if t["p"] != self.case["p"]:
             self.fail.append("the torrent's piece length is %r, expected %r" % (t["p"], self.case["p"]))
+        self.written_oracle(t, listed)
+        self.e2e_line()
         # every regular file of the input is listed exactly once (order and filtering are C06's)
         want = sorted(c for c, _ in walk_files(self.world[self.name])) if self.name in self.world else []
         if sorted(c for c, _ in listed) != want:
             rec["note"] = "listed paths differ from the regular files of the input (left to C06)"
         if not force:
             self.locations()
+
+    def written_oracle(self, t, listed):
+        """direct oracle for the written file, independent of every model: the strict Python reader's view of it equals
+        what hashlib computes from the files on disk in listed order"""
+        blob = b"".join(d for _, d in listed)
+        p = self.case["p"]
+        want = [hashlib.sha1(blob[i:i + p]).digest() for i in range(0, len(blob), p)]
+        if t["pieces"] != want:
+            k = next((i for i, (a, b) in enumerate(zip(t["pieces"], want)) if a != b), min(len(want), len(t["pieces"])))
+            self.fail.append("the written torrent lists %d piece hashes, SHA-1 of the listed files cut at %d gives %d; first difference at piece %d"
+                             % (len(t["pieces"]), p, len(want), k))
+        for (comps, n, m), (_, data) in zip(t["files"], listed):
+            what = os.fsdecode(b"/".join(comps or [self.name]))
+            if n != len(data):
+                self.fail.append("the written torrent gives %s the length %d, on disk it has %d bytes" % (what, n, len(data)))
+            want_m = hashlib.md5(data).digest() if self.case["md5"] else None
+            if m != want_m:
+                self.fail.append("the written torrent gives %s the md5sum %s, expected %s"
+                                 % (what, m.hex() if m else "none", want_m.hex() if want_m else "none (no --md5)"))
+
+    def e2e_line(self):
+        """the extracted composition create -> build -> encode -> load on the mirror, and load on the written bytes"""
+        h = lib.hexs
+        cr = self.created
+        sel = ",".join(("/".join(h(c) for c in comps) if comps else "-") for comps, _ in cr["listed"]) if cr["multi"] else "~"
+        if cr["multi"] and not cr["listed"]:
+            sel = "~"
+        i = len(self.steps) - 1
+        self.model_lines.append((i, "e2e", "c02e2e %d %d %d %s %s %s %s %d %s" % (
+            1 if self.case["md5"] else 0, self.case["p"], self.case["seed"] + i, h(self.tname),
+            h(os.path.normpath(self.inp_abs)), sel, vfy.model_fs(self.S, cr["tree0"]),
+            (self.case["seed"] * 31 + i) & 0xFFFFFF, h(cr["torrent"]))))
 
     def locations(self):
         """default locations: model (component level), verifier model (string level), os.path"""
@@ -311,7 +356,7 @@ class History:
         named = [comps for comps, _ in cr["listed"] if (is_named(os.fsdecode(b"/".join(comps)), text) if comps else os.fsdecode(self.name) in text)]
         rec = {"op": "verify", "argv": ["imdl"] + argv, "cwd": self.cwd, "exit_status": rc, "stderr_tail": text[-400:],
                "oracle_expects": "exit 0" if expect_ok else "exit 1", "listed_state": state,
-               "named": [b"/".join(c) for c in named]}
+               "named": [b"/".join(c) for c in named], "multi": cr["multi"]}
         self.steps.append(rec)
         what = "verify #%d (after %s)" % (sum(1 for s in self.steps if s["op"] == "verify"), self.last_edits())
         if rc not in (0, 1):
@@ -413,6 +458,9 @@ def judge_models(hist, replies):
         if kind in ("loc", "root", "vroot"):
             loc[kind] = rep
             continue
+        if kind == "e2e":
+            dis += judge_e2e(hist, i, st, rep)
+            continue
         rc, named = st["observed"]
         if kind == "composed":
             f = rep.split()
@@ -423,7 +471,7 @@ def judge_models(hist, replies):
                             for x in ([] if f[4] == "~" else f[4].split(",")))
             if good != (rc == 0):
                 dis.append("step %d: composed model says %s, `imdl torrent verify` exited %d" % (i, "success" if good else "failure", rc))
-            elif hist.created and hist.created["multi"] and rc == 1 and mnamed != named:
+            elif st.get("multi") and rc == 1 and mnamed != named:     # the creation in force at this step, not the last one
                 dis.append("step %d: the model names %r, standard error names %r" % (i, mnamed, named))
         elif kind == "verifier":
             if not rep.startswith("OK ") or rep == "OK fuel":
@@ -445,6 +493,65 @@ def judge_models(hist, replies):
             dis.append("verify's default content root: component-level model %s, string-level model %s, os.path %s"
                        % (loc["root"], loc["vroot"], lib.hexs(os_root)))
     return dis
+
+
+def parse_flat(txt):
+    """'<name> <plen> <pieces> <S|M> <files>' of driver.d/endtoend.ml -> the shape of vfy.read_torrent"""
+    f = txt.split()
+    if len(f) != 5:
+        return None
+    files = []
+    for x in ([] if f[4] == "~" else f[4].split(";")):
+        pa, n, m = x.split(":")
+        comps = None if f[3] == "S" else ([] if pa == "-" else [bytes.fromhex(c) for c in pa.split("/")])
+        files.append((comps, int(n), None if m == "~" else lib.unhex(m)))
+    return {"name": lib.unhex(f[0]), "p": int(f[1]), "pieces": lib.unhexlist(f[2]), "files": files, "single": f[3] == "S"}
+
+
+def judge_e2e(hist, i, st, rep):
+    """the reply of c02e2e for the create step i -> disagreement summaries; records what was compared in the step"""
+    out = []
+    rec = st.setdefault("e2e", {})
+    parts = [x.strip() for x in rep.split("|")]
+    f = parts[0].split()
+    if len(parts) != 3 or len(f) != 6 or f[0] != "OK":
+        return ["end to end, step %d: the model created nothing although `imdl torrent create` succeeded: %s" % (i, rep[:80])]
+    ok, back, real, info_free = f[1] == "1", f[2] == "1", f[3], f[4] == "1"
+    mb = lib.unhex(f[5])
+    mt = parse_flat(parts[1])
+    rec.update(side_conditions=ok, model_loads_back=back, real_loads=real, info_free=info_free)
+    tb = st.get("torrent_bytes")
+    it, _ = vfy.read_torrent(tb) if tb is not None else (None, None)
+    if ok and not back:
+        out.append("end to end, step %d: the side conditions hold but load (encode (build ..)) is not the creation result "
+                   "(the extracted model contradicts c02_created_bytes_load_back)" % i)
+    if real != "1":
+        out.append("end to end, step %d: the loader model %s; the model's create gives %s" % (
+            i, "refuses the bytes the binary wrote" if real == "~" else "reads the written bytes as " + parts[2][:300], parts[1][:300]))
+    # the model's torrent against the independent Python reading of the written file
+    if mt is None or it is None:
+        out.append("end to end, step %d: nothing to compare (model %r, independent reader %r)" % (i, mt is not None, it is not None))
+    else:
+        for key, what in (("name", "name"), ("p", "piece length"), ("pieces", "piece list"), ("single", "mode"), ("files", "files")):
+            a, b = mt[key], it[key]
+            if key == "files":
+                a, b = [(c or [], n, m) for c, n, m in a], [(c or [], n, m) for c, n, m in b]
+            if a != b:
+                out.append("end to end, step %d: %s of the model's torrent differs from the written file's: %r vs %r" % (i, what, a if key != "pieces" else len(a), b if key != "pieces" else len(b)))
+                break
+    # canonical bytes, and a byte-identical info dictionary when the drawn options do not touch it
+    try:
+        v, end = lib.bdecode_strict(mb)
+        if end != len(mb):
+            out.append("end to end, step %d: the independent strict reader leaves %d bytes of the model's output unread" % (i, len(mb) - end))
+        elif info_free and tb is not None:
+            rec["info_compared"] = True
+            if lib.info_span(mb) != lib.info_span(tb):
+                out.append("end to end, step %d: the model's info dictionary differs from the one `imdl torrent create` wrote" % i)
+    except Exception as e:
+        if ok:
+            out.append("end to end, step %d: the independent strict reader refuses the model's bytes: %s" % (i, e))
+    return out
 
 
 # ------------------------------------------------------------------ generation
@@ -665,10 +772,27 @@ def reproduce_script(case, hist):
 
 
 # ------------------------------------------------------------------ the check
+def hash_selftest(ctx):
+    """the SHA-1 / MD5 of driver.d/endtoend.ml (they instantiate H and MD5 of the end-to-end composition) against hashlib;
+    fixed messages and a private generator: ctx.rng is left alone so that the histories of a seed do not move"""
+    import random
+    r = random.Random(20261001)
+    msgs = [b"", b"abc", b"a" * 55, b"a" * 56, b"a" * 63, b"a" * 64, b"a" * 119, b"a" * 120] + \
+           [r.randbytes(r.randrange(0, 700)) for _ in range(16)]
+    got = ctx.model(["e2esha1 " + lib.hexs(m) for m in msgs] + ["e2emd5 " + lib.hexs(m) for m in msgs], nproc=1)
+    want = ["OK " + hashlib.sha1(m).hexdigest() for m in msgs] + ["OK " + hashlib.md5(m).hexdigest() for m in msgs]
+    for m, g, wv in zip(msgs + msgs, got, want):
+        if g != wv:
+            ctx.violation("assumption-broken", "the end-to-end driver's SHA-1/MD5 differs from hashlib on %r" % m[:40],
+                          {"message": m, "driver": g, "hashlib": wv})
+            return
+
+
 def run(ctx):
     ctx.need_coq()
     if not ctx.need_rust() or not ctx.need_runner():
         return finish(ctx)
+    hash_selftest(ctx)
     r = ctx.rng
     cases = corpus() + [gen_case(r, i) for i in range(ctx.n(170, 9000))]
     tmp = tempfile.mkdtemp(prefix="c02-")
@@ -730,6 +854,17 @@ def account(ctx, case, h):
         elif op in ("create", "recreate") and "argv" in st:
             ctx.cov["evaluations"] += 1
             sig = sig + [op] if op == "recreate" else sig
+            e = st.get("e2e")
+            if e:
+                ctx.cov["evaluations"] += 1
+                ctx.cov["traces_validated_against_impl"] += 1
+                ctx.count("end to end: create steps compared (model's torrent = loader model on the written bytes = independent reading)")
+                ctx.count("end to end: side conditions " + ("hold, load (encode (build ..)) = creation result evaluated" if e["side_conditions"]
+                                                            else "violated by the drawn options (malformed stream, nothing claimed)"))
+                ctx.count("end to end: info dictionary " + ("compared byte for byte with the binary's" if e.get("info_compared")
+                                                            else "not comparable (drawn options add private/source/update-url)"))
+                ctx.count("end to end: %s, md5 %s" % ("multi-file" if (h.created or {}).get("multi") else "single file", "on" if case["md5"] else "off"))
+                ctx.distinct(("e2e", case["tag"], case["layout"], case["p"], case["md5"], e["side_conditions"], e["info_free"], len(st.get("listed", []))))
         elif "skipped" not in op:
             sig = sig + [op]
     nfiles = len(walk_files(case["content"]))
@@ -748,8 +883,10 @@ def finish(ctx):
         "that no two different blocks among those compared have the same SHA-1 (collision_free)",
         "a read on a regular file returns 0 only at end of file or for an empty window, otherwise between 1 and min(window, rest) "
         "bytes (both loops, every schedule)",
-        "the walker's selection and order are taken from the written torrent (C06); the serialisation between create and verify is "
-        "exercised through the verifier model's loader on the real torrent bytes (C03/C05), not proved here",
+        "the walker's selection and order are taken from the written torrent (C06)",
+        "end to end (c02_created_bytes_load_back, c02_end_to_end): SHA-1 yields 20 bytes, MD5 yields 16 bytes each < 256 (Section "
+        "hypotheses); the name and every selected component are valid UTF-8 (create refuses others before hashing; the composed model "
+        "leaves them open) and every written integer fits i64 (C05's opts_ok / input_ok) - the examples c02_ex_needs_* show each is needed",
         "no symlinks, FIFOs, permission failures or concurrent modification among the listed paths",
     ]
     return ctx.finish(
@@ -760,8 +897,12 @@ def finish(ctx):
              "same bytes, add unrelated file, revert, re-create --force) interleaved with verify; a malformed stream replaces parent "
              "directories by files and removes the input; five hand-written histories run first. One evaluation = one create or "
              "verify command; a verify step is distinct/non-trivial by (flavour, layout, edit kinds since creation, exit status, "
-             "states of the listed files)",
-        trusted_base=["Coq 8.16.1 kernel (coqc)", "extraction with ExtrOcamlBasic + runner/driver.d/createverify.ml, verify.ml (SHA-1 in OCaml)",
+             "states of the listed files). End to end: every successful create / re-create step is also one evaluation of the extracted "
+             "create -> build -> encode -> load composition with real digests and a seed-drawn set of metainfo options (announce, tiers, "
+             "comment, nodes, created-by, date, allows; private/source/update-url in a third; about one in 17 leaves opts_ok: the "
+             "malformed stream), compared with the loader model on the written bytes, the independent strict reader and hashlib; distinct "
+             "by (flavour, layout, piece length, md5, side conditions, info-free, number of files)",
+        trusted_base=["Coq 8.16.1 kernel (coqc)", "extraction with ExtrOcamlBasic + runner/driver.d/createverify.ml, verify.ml, endtoend.ml (SHA-1 in OCaml, checked against hashlib on every run)",
                       "Python oracle in tools/props/c02.py (os.stat, file reads, lib.bdecode_strict via vfy.read_torrent)"],
     )
 
